@@ -156,40 +156,52 @@ Definition dp_cap : Z := 1000.
 
 Record dpipe := { ch0 : list msg;   (* read by end 0, written by end 1 *)
                   ch1 : list msg;   (* read by end 1, written by end 0 *)
-                  dclosed0 : bool; dclosed1 : bool }.
-Definition dpipe0 : dpipe := {| ch0 := []; ch1 := []; dclosed0 := false; dclosed1 := false |}.
+                  dclosed0 : bool; dclosed1 : bool;
+                  wexp0 : bool; wexp1 : bool   (* the write deadline of end 0 / 1 has passed *) }.
+Definition dpipe0 : dpipe := {| ch0 := []; ch1 := []; dclosed0 := false; dclosed1 := false; wexp0 := false; wexp1 := false |}.
 
-Inductive dop := DWrite (side : Z) (m : msg) | DRead (side k : Z) | DClose (side : Z).
+Inductive dop := DWrite (side : Z) (m : msg) | DRead (side k : Z) | DClose (side : Z) | DSetWD (side : Z) (expired : bool).
 
-(* Write [n; class]: class 0 ok, 2 closed pipe, 3 would block (channel full);
+(* Write [n; class]: class 0 ok, 2 closed pipe, 3 would block (channel full), 4 write deadline passed;
    Read 0 :: n :: bytes | [2] end-of-file | [3] would block; Close [] *)
 Definition dp_step (p : dpipe) (o : dop) : dpipe * zs :=
   match o with
   | DWrite side m =>
       if (if side =? 0 then dclosed0 p else dclosed1 p) then (p, [0; 2])
+      else if (if side =? 0 then wexp0 p else wexp1 p) then
+        (* the write deadline has passed: the write fails, and (dpipe.cleanWriteBuffer) what this end had written and the peer has
+           not read yet is discarded; the other direction is not touched *)
+        (if side =? 0 then {| ch0 := ch0 p; ch1 := []; dclosed0 := dclosed0 p; dclosed1 := dclosed1 p; wexp0 := wexp0 p; wexp1 := wexp1 p |}
+         else {| ch0 := []; ch1 := ch1 p; dclosed0 := dclosed0 p; dclosed1 := dclosed1 p; wexp0 := wexp0 p; wexp1 := wexp1 p |}, [0; 4])
       else if side =? 0 then
         if zlen (ch1 p) >=? dp_cap then (p, [0; 3])
-        else ({| ch0 := ch0 p; ch1 := ch1 p ++ [m]; dclosed0 := dclosed0 p; dclosed1 := dclosed1 p |}, [zlen m; 0])
+        else ({| ch0 := ch0 p; ch1 := ch1 p ++ [m]; dclosed0 := dclosed0 p; dclosed1 := dclosed1 p; wexp0 := wexp0 p; wexp1 := wexp1 p |}, [zlen m; 0])
       else
         if zlen (ch0 p) >=? dp_cap then (p, [0; 3])
-        else ({| ch0 := ch0 p ++ [m]; ch1 := ch1 p; dclosed0 := dclosed0 p; dclosed1 := dclosed1 p |}, [zlen m; 0])
+        else ({| ch0 := ch0 p ++ [m]; ch1 := ch1 p; dclosed0 := dclosed0 p; dclosed1 := dclosed1 p; wexp0 := wexp0 p; wexp1 := wexp1 p |}, [zlen m; 0])
   | DRead side k =>
       if (if side =? 0 then dclosed0 p else dclosed1 p) then (p, [2])
       else if side =? 0 then
         match ch0 p with
-        | m :: rest => ({| ch0 := rest; ch1 := ch1 p; dclosed0 := dclosed0 p; dclosed1 := dclosed1 p |},
+        | m :: rest => ({| ch0 := rest; ch1 := ch1 p; dclosed0 := dclosed0 p; dclosed1 := dclosed1 p; wexp0 := wexp0 p; wexp1 := wexp1 p |},
                         0 :: zlen (zfirstn k m) :: zfirstn k m)
         | [] => (p, [3])
         end
       else
         match ch1 p with
-        | m :: rest => ({| ch0 := ch0 p; ch1 := rest; dclosed0 := dclosed0 p; dclosed1 := dclosed1 p |},
+        | m :: rest => ({| ch0 := ch0 p; ch1 := rest; dclosed0 := dclosed0 p; dclosed1 := dclosed1 p; wexp0 := wexp0 p; wexp1 := wexp1 p |},
                         0 :: zlen (zfirstn k m) :: zfirstn k m)
         | [] => (p, [3])
         end
   | DClose side =>
-      if side =? 0 then ({| ch0 := ch0 p; ch1 := ch1 p; dclosed0 := true; dclosed1 := dclosed1 p |}, [])
-      else ({| ch0 := ch0 p; ch1 := ch1 p; dclosed0 := dclosed0 p; dclosed1 := true |}, [])
+      (* a Write on an end that is closed and whose write deadline has passed gets either error (the select in the code picks at
+         random): the harness clears the write deadline before it closes an end, and so does the model *)
+      if side =? 0 then ({| ch0 := ch0 p; ch1 := ch1 p; dclosed0 := true; dclosed1 := dclosed1 p; wexp0 := false; wexp1 := wexp1 p |}, [])
+      else ({| ch0 := ch0 p; ch1 := ch1 p; dclosed0 := dclosed0 p; dclosed1 := true; wexp0 := wexp0 p; wexp1 := false |}, [])
+  | DSetWD side e =>
+      if (if side =? 0 then dclosed0 p else dclosed1 p) then (p, [])   (* not applied to a closed end, for the same reason *)
+      else if side =? 0 then ({| ch0 := ch0 p; ch1 := ch1 p; dclosed0 := dclosed0 p; dclosed1 := dclosed1 p; wexp0 := e; wexp1 := wexp1 p |}, [])
+      else ({| ch0 := ch0 p; ch1 := ch1 p; dclosed0 := dclosed0 p; dclosed1 := dclosed1 p; wexp0 := wexp0 p; wexp1 := e |}, [])
   end.
 
 Fixpoint dp_run (p : dpipe) (h : list dop) : list zs :=
@@ -202,6 +214,7 @@ Definition dec_dop (o : zs) : dop :=
   match o with
   | 1 :: side :: m => DWrite side m
   | 2 :: side :: k :: _ => DRead side k
+  | 4 :: side :: e :: _ => DSetWD side (z2b e)
   | _ :: side :: _ => DClose side
   | _ => DClose 0
   end.
